@@ -236,3 +236,51 @@ func VerifH07c() {
 	// (T2 alone may well succeed: when W ran to completion before T2 began and T1 lost against W)
 	nd.Reach("H07c.end")
 }
+
+// VerifH07d: a snapshot transaction that begins while another one is committing. T1 has written a
+// and commits in its own goroutine; meanwhile T2 begins and reads a. If T2 still read the value
+// from before T1's commit, its snapshot precedes that commit: once T1 has succeeded, T2's own
+// write of a must fail at Commit with ErrTxSerialization (first committer wins) - wherever inside
+// T1's commit T2's Begin fell.
+func VerifH07d() {
+	P := 1
+	if nd.Tier() == 1 {
+		P = 2
+	}
+	nd.Bound("H07d.preemption_bound", P)
+	concreteCounter = true
+	w := newWorld(stdConfig(), []string{"a", "b"})
+	old := w.freshVal()
+	nd.Assert(w.doSet(0, "a", old, 0) == nil, "H07d.pre")
+	t1 := w.begin(snapshotLevels[nd.Choice("level", 2)])
+	v1 := w.freshVal()
+	nd.Assert(w.doSet(t1, "a", v1, 0) == nil, "H07d.tx-write")
+	if nd.Choice("t1-writes-b-too", 2) == 1 {
+		nd.Assert(w.doSet(t1, "b", w.freshVal(), 0) == nil, "H07d.tx-write")
+	}
+	lv2 := snapshotLevels[nd.Choice("level", 2)]
+	var err1 error
+	nd.SpawnRunsFirst(P == 1)
+	nd.SetPreemptionBound(P)
+	go func() { err1 = w.txs[t1].h.Commit(ctx) }()
+	h2, berr := w.d.Begin(ctx, lv2)
+	nd.Assert(berr == nil, "H07d.begin")
+	got, gerr := h2.Get(ctx, "a")
+	nd.JoinAll()
+	nd.SetPreemptionBound(0)
+	nd.Assert(err1 == nil, "H07d.first-commit-ok")
+	nd.Assert(gerr == nil, "H07d.snapshot-read-found")
+	if gerr != nil {
+		return
+	}
+	nd.Assume(!nd.EqBytes(old, v1))
+	sawOld := nd.EqBytes(got, old)
+	nd.Assert(nd.Or(sawOld, nd.EqBytes(got, v1)), "H07d.snapshot-read-is-a-committed-value")
+	nd.Assert(h2.Set(ctx, "a", w.freshVal()) == nil, "H07d.tx2-write")
+	err2 := h2.Commit(ctx)
+	if err2 != nil {
+		nd.Assert(errors.Is(err2, fs_db.ErrTxSerialization), "H07d.loser-error-class")
+	}
+	nd.Assert(nd.Implies(sawOld, err2 != nil), "H07d.commit-over-a-commit-the-snapshot-did-not-see")
+	nd.Reach("H07d.end")
+}
